@@ -10,12 +10,13 @@ plan is re-validated with the real SequentialPlanValidator on both problems befo
 import json
 
 from harness import compcheck as cc
+from harness import layera
 
 META = {
     "level": "translation_validation",
     "technique": "Coq-verified validator (product exploration of compiled plans against the mapped-back run; proved sound and exact for all plans up to the depth, for any pair of problems and any map-back table) applied by vm_compute to the output of the real compilers on generated problems",
-    "text": "sound_check_correct: a true answer implies that every valid compiled plan up to the depth maps back to a valid original plan (trajectory constraints by a monitor proved equal to the PDDL3 semantics); sound_search_witness: a false answer is a concrete valid compiled plan whose image is invalid. The quantifier over plans/states is proved, the quantifier over problems is sampled (generated problems per compiler + corner corpus).",
-    "note": "validated, not proved for all problems: problems are sampled. Strict documented semantics (spec_step false) on BOTH problems, so the recorded simulator deviations (C01-*) do not enter; witnesses are double-checked with the real SequentialPlanValidator. Trusted: Coq kernel/vm_compute, harness serialiser (problems, initial values, ground instances, map-back table), CPython running the compilers. No axioms.",
+    "text": "LAYER A (proved for ALL problems of the modelled fragment, Props/C06.v C06_LA_*): QuantifiersRemover (expand_quantifiers_eval for both quantifier modes, quant_sound), StateInvariantsRemover and BoundedTypesRemover (sir/btr_valid_plan: the verdicts differ exactly by 'the moved constraints hold initially'; sir/btr_sound need no hypothesis on the initial state), ConditionalEffectsRemover (cer_sound) and DisjunctiveConditionsRemover without auxiliary goal action (dcr_sound), each tied to the code by a structural correspondence on the real compilers' output (harness/layera.py, evidence keys layerA_*). LAYER B (every compiler and pipeline, validated): sound_check_correct: a true answer implies that every valid compiled plan up to the depth maps back to a valid original plan (trajectory constraints by a monitor proved equal to the PDDL3 semantics); sound_search_witness: a false answer is a concrete valid compiled plan whose image is invalid. The quantifier over plans/states is proved, the quantifier over problems is sampled (generated problems per compiler + corner corpus).",
+    "note": "level stays translation_validation because not every compiler named in the property is proved for all problems: PROVED (Layer A) = QuantifiersRemover, StateInvariantsRemover, BoundedTypesRemover, ConditionalEffectsRemover, DisjunctiveConditionsRemover (goals without auxiliary goal action); VALIDATED ONLY = Grounder, NegativeConditionsRemover, UsertypeFluentsRemover, TrajectoryConstraintsRemover, UndefinedInitialNumericRemover, DisjunctiveConditionsRemover's fake goal action, pipelines. Layer A hypotheses (stated in the theorems): the Simplifier keeps value/definedness of the conditions it rewrites (smp_exact / smp_holds / simp_pre_ok; the real one only refines, C11 - the gap is the recorded deviation C01-simplified-undefined-read), expressions buildable by the manager with Boolean arguments under Not/quantifiers and consistently typed variables (wfe), Boolean fluents hold Booleans, effect targets defined, unique action names, fresh variant names (C08), DNF walker equivalences (C12), the C37 hypotheses on a step-closed set of states. Layer B: validated, not proved for all problems: problems are sampled. Strict documented semantics (spec_step false) on BOTH problems, so the recorded simulator deviations (C01-*) do not enter; witnesses are double-checked with the real SequentialPlanValidator. Trusted: Coq kernel/vm_compute, harness serialiser (problems, initial values, ground instances, map-back table), CPython running the compilers. No axioms.",
 }
 
 
@@ -41,7 +42,7 @@ def check_back_conversion(c, rng):
 
 
 def run(ctx):
-    ok_proofs = ctx.check_props(extra=["theories/Corr/Corr_C06.v"])
+    ok_proofs = ctx.check_props(extra=["theories/Corr/Corr_C06.v", "theories/Corr/Corr_LayerA.v"])
     per, depth, max_insts = (20, 3, 12) if ctx.quick else (45, 4, 14)
     cases, gstats = cc.build_cases(ctx, per, max_insts)
     live = [c for c in cases if c.live]
@@ -85,6 +86,12 @@ def run(ctx):
                       real_validator_on_compiled=[rv_c, why_c], real_validator_on_original=[rv_o, why_o],
                       coq_oracle="UPV.Compilers.SimCheck.sound_search (depth %d)" % depth_of(c), shape_tags=cc.shape_tags(c.problem)),
                  True)
+    # ------------------------------------------------------------------ Layer A: structural correspondence -------
+    # (separate from the validation above: the Gallina models of the individually PROVED compilers are compared with
+    # the real compilers' output on the same cases; a mismatch is model drift, the validators above decide the property)
+    failed_idx = set(c.idx for c in live if reports[c.idx][1] != 0)
+    la_cov = layera.run(ctx, cases, validator_failed=failed_idx)
+    # ------------------------------------------------------------------ end of Layer A block ----------------------
     if not ok_proofs:
         ctx.proof_broken()
     dist = cc.distribution(cases)
@@ -102,6 +109,7 @@ def run(ctx):
         "distribution": dist,
         "depth": depth, "depth_small_problems": depth if ctx.quick else depth + 1,
         "exhaustive": False,
+        **la_cov,
     }, "translation_validation",
         assumptions=["problems are sampled (generated inside each compiler's supported kind, all fluents initially defined except for UndefinedInitialNumericRemover); plans are covered exhaustively up to the depth",
                      "compiled plans range over the ground instances of the compiled actions (objects of the parameter types, Booleans, bounded integers)"])
